@@ -445,6 +445,17 @@ def run_cross_rules(ctx):
         ('override_default_constant', lambda: M.FormulaGrader(variables=['pi'])),
         ('override_default_constant', lambda: M.FormulaGrader(user_constants={'e': 3})),
         ('override_default_constant', lambda: M.FormulaGrader(numbered_vars=['i'])),
+        # the rule reads the class defaults, not what an earlier grader did with its own copy of them
+        ('override_default_constant_after_another_grader_deleted_it', lambda: (
+            M.SumGrader(answers={'lower': '1', 'upper': '2', 'summand': 'n', 'summation_variable': 'n'}, user_constants={'pi': None}),
+            M.SumGrader(answers={'lower': '1', 'upper': '2', 'summand': 'n', 'summation_variable': 'n'}, variables=['pi']))[1]),
+        ('override_default_constant_after_another_grader_deleted_it', lambda: (
+            M.SumGrader(answers={'lower': '1', 'upper': '2', 'summand': 'n', 'summation_variable': 'n'}, user_constants={'infty': None, 'e': None}),
+            M.SumGrader(answers={'lower': '1', 'upper': '2', 'summand': 'n', 'summation_variable': 'n'}, user_constants={'infty': 5}))[1]),
+        ('override_default_constant_after_another_grader_deleted_it', lambda: (
+            M.FormulaGrader(user_constants={'e': None, 'pi': None}), M.FormulaGrader(variables=['e']))[1]),
+        ('override_default_constant_after_another_grader_deleted_it', lambda: (
+            M.MatrixGrader(user_constants={'i': None}), M.NumericalGrader(user_constants={'j': None}), M.MatrixGrader(numbered_vars=['i']))[2]),
         ('override_default_function', lambda: M.FormulaGrader(user_functions={'sin': abs})),
         ('override_default_function', lambda: M.MatrixGrader(user_functions={'det': abs})),
         ('sample_from_unknown_variable', lambda: M.FormulaGrader(variables=['x'], sample_from={'y': [1, 2]})),
